@@ -193,6 +193,67 @@ func c13Units(tier string, seed int64) []Unit {
 			}
 		}
 	}})
+	// "never hangs": once the input is exhausted it stays exhausted, so the work still done after that point
+	// is bounded by the nesting depth, not exponential in it. Counted, not timed: calls of the innermost
+	// generator function (nested Custom generators through the MakeFuzz body) and draw attempts after the end
+	// of the stream (Make for nested structs on a stream that ends at every position)
+	units = append(units, Unit{Name: "C13/exhausted-input-under-nested-generators", Run: func(c *Ctx) {
+		tb := NewTB("C13")
+		tb.Quiet = true
+		maxD := 8
+		if !quick {
+			maxD = 11
+		}
+		for d := 1; d <= maxD; d++ {
+			calls := 0
+			g := rapid.Custom(func(t *rapid.T) int { calls++; return int(rapid.Int8().Draw(t, "x")) })
+			for i := 1; i < d; i++ {
+				inner := g
+				g = rapid.Custom(func(t *rapid.T) int { return inner.Draw(t, "g") })
+			}
+			for _, input := range [][]byte{nil, {1}, make([]byte, 8)} {
+				calls = 0
+				ftb := NewTB("C13")
+				ftb.Quiet = true
+				esc := Guard(func() { rapid.VerifCheckFuzz(ftb, func(t *rapid.T) { g.Draw(t, "g") }, input) })
+				c.R.Evals++
+				c.R.States++
+				c.R.Transitions += int64(calls)
+				c.Outcome(fmt.Sprintf("custom depth=%d len=%d calls=%d skip=%v", d, len(input), calls, ftb.IsSkip), true)
+				if esc != nil || !ftb.IsSkip || ftb.IsFail {
+					c.Violate(Violation{Sig: "C13 exhausted-input-not-skipped nesting=custom", Detail: fmt.Sprintf("%d nested Custom generators, input of %d bytes: skipped=%v failed=%v escaped=%v", d, len(input), ftb.IsSkip, ftb.IsFail, esc),
+						Replay: map[string]any{"engine": "fuzz", "depth": d, "input": input}})
+				}
+				if calls > 5*d {
+					c.Violate(Violation{Sig: "C13 work-after-exhaustion-exponential nesting=custom", Detail: fmt.Sprintf("%d nested Custom generators, input of %d bytes: the innermost function was called %d times before the target answered skip (5 per nesting level would be %d)", d, len(input), calls, 5*d),
+						Replay: map[string]any{"engine": "fuzz", "depth": d, "input": input}, Devs: d})
+					return
+				}
+			}
+		}
+		for d, mk := range c13NestedMakes() {
+			g := mk()
+			for cut := 0; cut <= 2; cut++ {
+				src := NewSource(nil, cut, BaseZero)
+				res := rapid.VerifRunSource(tb, src, false, func(t *rapid.T) { g.Draw(t, "v") })
+				after := 0
+				for _, dr := range src.Trace {
+					if dr.Overrun {
+						after++
+					}
+				}
+				c.R.Evals++
+				c.R.States++
+				c.R.Transitions += int64(len(src.Trace))
+				c.Outcome(fmt.Sprintf("make depth=%d cut=%d %s after=%d", d+1, cut, kindName(res.Kind), after), true)
+				if after > 5*(d+2) {
+					c.Violate(Violation{Sig: "C13 work-after-exhaustion-exponential nesting=make", Detail: fmt.Sprintf("Make for %d nested one-field structs on a stream that ends after %d draws: %d further draw attempts after the end", d+1, cut, after),
+						Replay: map[string]any{"engine": "source", "depth": d + 1, "cut": cut}, Devs: d})
+					return
+				}
+			}
+		}
+	}})
 	units = append(units, fuzzWrapUnit())
 	return units
 }
@@ -210,4 +271,30 @@ func init() {
 		Units:       c13Units,
 		Budget:      map[string]time.Duration{"quick": 50 * time.Second, "thorough": 15 * time.Minute},
 	})
+}
+
+type (
+	nest1  struct{ V int8 }
+	nest2  struct{ V nest1 }
+	nest3  struct{ V nest2 }
+	nest4  struct{ V nest3 }
+	nest5  struct{ V nest4 }
+	nest6  struct{ V nest5 }
+	nest7  struct{ V nest6 }
+	nest8  struct{ V nest7 }
+	nest9  struct{ V nest8 }
+	nest10 struct{ V nest9 }
+)
+
+func c13NestedMakes() []func() *rapid.Generator[any] {
+	return []func() *rapid.Generator[any]{
+		func() *rapid.Generator[any] { return rapid.Make[nest1]().AsAny() },
+		func() *rapid.Generator[any] { return rapid.Make[nest2]().AsAny() },
+		func() *rapid.Generator[any] { return rapid.Make[nest3]().AsAny() },
+		func() *rapid.Generator[any] { return rapid.Make[nest4]().AsAny() },
+		func() *rapid.Generator[any] { return rapid.Make[nest5]().AsAny() },
+		func() *rapid.Generator[any] { return rapid.Make[nest6]().AsAny() },
+		func() *rapid.Generator[any] { return rapid.Make[nest7]().AsAny() },
+		func() *rapid.Generator[any] { return rapid.Make[nest8]().AsAny() },
+	}
 }
